@@ -7,6 +7,7 @@ Quirk = 0
 MaxEvents = 6
 Lists <- ListsA
 HealthVals = {FALSE}
+BalVals = {0}
 INIT Init
 NEXT Next
 INVARIANT I_ReadyMeansReady
